@@ -789,9 +789,34 @@ func (e *Env) call(n *CCall) CV {
 			}
 		}
 		return CV{T: sx(">", v.T, e.old.top), Ty: boolT}
+	case "errtext":
+		// errtext(e): what e.Error() returns
+		need(1)
+		v := e.eval(n.Args[0])
+		g.needErrtext()
+		return CV{T: sx("errtext", v.T), Ty: stringT}
+	case "samearray":
+		// samearray(a, b): the two slices share one backing array (the only way two slices can alias)
+		need(2)
+		a, b := e.eval(n.Args[0]), e.eval(n.Args[1])
+		for _, v := range []CV{a, b} {
+			if v.Ty == nil {
+				panic(cerr("samearray of untyped value"))
+			}
+			if _, isSl := v.Ty.Underlying().(*types.Slice); !isSl {
+				panic(cerr("samearray of %s", v.Ty))
+			}
+		}
+		return CV{T: eq(sx("s_arr", a.T), sx("s_arr", b.T)), Ty: boolT}
 	case "allocated":
 		need(1)
 		v := e.eval(n.Args[0])
+		if v.Ty != nil {
+			if _, isSl := v.Ty.Underlying().(*types.Slice); isSl {
+				// a slice value that exists now lies in an array allocated before now
+				return CV{T: sx("<=", sx("s_arr", v.T), e.st.top), Ty: boolT}
+			}
+		}
 		return CV{T: sx("<=", v.T, e.st.top), Ty: boolT}
 	case "dyn":
 		need(1)
